@@ -312,6 +312,9 @@ def generate(tier):
                        zc.replace('CMP', 'r.ck(a.cmp(b) == ta.cmp(tb), 1, &|| format!("values #{} and #{}: cmp gives {:?}, #[derive(Ord)] gives {:?}", i, j, a.cmp(b), ta.cmp(tb)));'))
     cases += zoo_cases('C03|PO|zm', 'PartialOrd', 'Debug, Clone, PartialEq', 'Debug, Clone, PartialEq, PartialOrd', zc.replace('CMP', ''), z_attr='PartialOrd(method(zoo_m_pcmp))')
     cases += zoo_cases('C03|PO|zi', 'PartialOrd', 'Debug, Clone, PartialEq', 'Debug, Clone, PartialEq, PartialOrd', zc.replace('CMP', ''), ign_attr='PartialOrd(ignore)')
+    # (with both order traits educed the field takes one attribute, which both impls follow)
+    cases += zoo_cases('C03|OP|zm', 'PartialOrd, Ord', 'Debug, Clone, PartialEq, Eq', 'Debug, Clone, PartialEq, Eq, PartialOrd, Ord', zc.replace('CMP', 'r.ck(a.cmp(b) == ta.cmp(tb), 1, &|| format!("values #{} and #{}: cmp gives {:?}, #[derive(Ord)] gives {:?}", i, j, a.cmp(b), ta.cmp(tb)));'), z_attr='Ord(method(zoo_m_cmp))')
+    cases += zoo_cases('C03|OP|zi', 'PartialOrd, Ord', 'Debug, Clone, PartialEq, Eq', 'Debug, Clone, PartialEq, Eq, PartialOrd, Ord', zc.replace('CMP', 'r.ck(a.cmp(b) == ta.cmp(tb), 1, &|| format!("values #{} and #{}: cmp gives {:?}, #[derive(Ord)] gives {:?}", i, j, a.cmp(b), ta.cmp(tb)));'), ign_attr='Ord(ignore)')
     from .common import underscorify, rawify
     named = [x for x in cases if ':n' in x.key or '|n' in x.key]
     for c in named[::5]:
